@@ -161,11 +161,50 @@ theorem C10_sequence_protects (gvr : String) (db db1 : Db) (pre post : List IFil
     obtain ⟨vs, vt, hvs, hvt, h0s, h0t, hles, hlet⟩ := ha a haa
     exact ⟨vs, vt, hvs, hvt, h0s, h0t, by unfold ProtGe at g2; omega, by unfold ProtGe at g2; omega⟩
 
-/-- the premises are satisfiable: a sequence of two accepted files on an empty store -/
-example : ∃ db1, importFile "0x0000000000000000000000000000000000000000000000000000000000000000"
-      (importSeq "0x0000000000000000000000000000000000000000000000000000000000000000" [] [])
-      { metadata := some ("5", "0x0000000000000000000000000000000000000000000000000000000000000000"), data := [] } = .ok db1 :=
-  ⟨_, rfl⟩
+/-- **C10 end to end (proposals).** After ANY list of imports in which file `f` was accepted at some point, a proposal
+    for a key of `f` at or below any slot `f` states for it is refused by the rules running on the final store — under
+    every fault plan. This is the property's first sentence for blocks, with all three quantifiers (store, file,
+    sequence) in one statement. -/
+theorem C10_sequence_refuses_prop (gvr : String) (db db1 : Db) (pre post : List IFile) (f : IFile)
+    (h : importFile gvr (importSeq gvr db pre) f = .ok db1)
+    (e : FileEntry) (he : e ∈ f.data) (s : String) (hs : s ∈ e.blocks) (v : Int) (hv : parseInt64 s = some v)
+    (kb : Bytes) (hk : hexDecode0x e.pubkey = some kb) (r : PropReq) (hle : (r.slot : Int) ≤ v) (fl : Faults) :
+    (onPropose (importSeq gvr db (pre ++ f :: post)) (fit48 kb) r fl).1 ≠ .approved := by
+  obtain ⟨kb', p', hk', hex, hb, _⟩ := C10_sequence_protects gvr db db1 pre post f h e he
+  rw [hk] at hk'; injection hk' with hk'; subst hk'
+  obtain ⟨v', hv', _, hle'⟩ := hb s hs
+  rw [hv] at hv'; injection hv' with hv'; subst hv'
+  obtain ⟨_, hp⟩ := exportKey_some hex
+  exact C10_refuses_after_prop _ _ p'.slot r fl hp (fetchProp_inI64 hp) (by omega)
+
+/-- **C10 end to end (attestations).** Likewise: an attestation whose target is at or below a target `f` states, or whose
+    source is below a source `f` states, is refused on the final store. -/
+theorem C10_sequence_refuses_att (gvr : String) (db db1 : Db) (pre post : List IFile) (f : IFile)
+    (h : importFile gvr (importSeq gvr db pre) f = .ok db1)
+    (e : FileEntry) (he : e ∈ f.data) (a : String × String) (ha : a ∈ e.atts)
+    (vs vt : Int) (hvs : parseInt64 a.1 = some vs) (hvt : parseInt64 a.2 = some vt)
+    (kb : Bytes) (hk : hexDecode0x e.pubkey = some kb) (r : AttReq)
+    (hle : (r.tgt : Int) ≤ vt ∨ (r.src : Int) < vs) (fl : Faults) :
+    (onAttest (importSeq gvr db (pre ++ f :: post)) (fit48 kb) r fl).1 ≠ .approved := by
+  obtain ⟨kb', p', hk', hex, _, hat⟩ := C10_sequence_protects gvr db db1 pre post f h e he
+  rw [hk] at hk'; injection hk' with hk'; subst hk'
+  obtain ⟨vs', vt', hvs', hvt', h0s, h0t, hles, hlet⟩ := hat a ha
+  rw [hvs] at hvs'; injection hvs' with hvs'; subst hvs'
+  rw [hvt] at hvt'; injection hvt' with hvt'; subst hvt'
+  obtain ⟨hatt, _⟩ := exportKey_some hex
+  refine C10_refuses_after_att _ _ ⟨p'.src, p'.tgt⟩ r fl hatt ?_
+  rcases hle with hl | hl
+  · exact Or.inl ⟨by show (0:Int) ≤ p'.tgt; omega, by show (r.tgt : Int) ≤ p'.tgt; omega⟩
+  · exact Or.inr ⟨by show (0:Int) ≤ p'.src; omega, by show (r.src : Int) < p'.src; omega⟩
+
+/-- the premises are satisfiable: a file stating slot 7 and the vote 3→4 for a key is accepted on an empty store, so
+    `C10_sequence_protects` / `_refuses_prop` / `_refuses_att` apply to it with any `post` -/
+def exGvr : String := "0x0000000000000000000000000000000000000000000000000000000000000000"
+def exKey : String := "0xa99a76ed7796f7be22d5b7e85deeb7c5677e88e511e0b337618f8c4eb61349b4bf2d153f649f7b53359fe8b94a38e44c"
+def exFile : IFile := { metadata := some ("5", exGvr), data := [{ pubkey := exKey, blocks := ["7"], atts := [("3", "4")] }] }
+example : ∃ db1, importFile exGvr (importSeq exGvr [] []) exFile = .ok db1 := ⟨_, rfl⟩
+example : ∃ kb, hexDecode0x exKey = some kb := ⟨_, rfl⟩
+example : parseInt64 "7" = some 7 := rfl
 
 /-- **tie by translation.** The merge the theorems above are about is, entry by entry, the code translated on every run
     from the Go source of `storeSlashingProtection` (package main): the value a key starts from (an earlier entry of the
